@@ -228,7 +228,7 @@ def orderly_part(mode):
 # ------------------------------------------------------------------------------------------------
 # mode machine
 
-OPS = ["W", "O", "T", "R", "C", "X", "E0", "E1"]
+OPS = ["W", "O", "T", "R", "C", "X", "E0", "E1", "P0", "P1"]
 
 
 def mode_history(args):
@@ -246,7 +246,7 @@ def mode_history(args):
         return counter[0]
 
     def tagged_simple(tag):
-        s = SimpleProcessTensor(hilbert_space_dimension=2, dt=0.1)
+        s = SimpleProcessTensor(hilbert_space_dimension=2, dt=0.1, name=str(tag))
         s.set_mpo_tensor(0, np.full((1, 1, 4), float(tag), dtype=complex))
         s.compute_caps()
         return s
@@ -267,7 +267,8 @@ def mode_history(args):
             try:
                 if op in ("W", "O"):
                     tag = new_tag()
-                    o = FileProcessTensor(mode="write" if op == "W" else "overwrite", filename=F, hilbert_space_dimension=2, dt=0.1)
+                    o = FileProcessTensor(mode="write" if op == "W" else "overwrite", filename=F, hilbert_space_dimension=2, dt=0.1,
+                                          name=str(tag))
                     o.set_mpo_tensor(0, np.full((1, 1, 4), float(tag), dtype=complex))
                     cur = {"obj": o, "name": F, "entitled": op == "O", "open": True}
                     live.append(cur)
@@ -292,16 +293,26 @@ def mode_history(args):
                 elif op in ("E0", "E1"):
                     tag = new_tag()
                     tagged_simple(tag).export(F, overwrite=(op == "E1"))
+                elif op in ("P0", "P1"):
+                    # the shortcut pt_tempo_compute writing straight into the file; the degeneracy flag must not matter
+                    tag = new_tag()
+                    from props import models as M_
+                    bath = oq.Bath(0.5 * M_.SZ, M_.ohmic(alpha=0.1, temperature=0.2))
+                    o = oq.pt_tempo_compute(bath, 0.0, 0.25, oq.TempoParameters(dt=0.1, epsrel=1e-4), unique=(op == "P0"),
+                                            process_tensor_file=F, overwrite=(op == "P1"), progress_type="silent",
+                                            name=str(tag))
+                    cur = {"obj": o, "name": F, "entitled": op == "P1", "open": True}
+                    live.append(cur)
             except BaseException as ex:  # noqa
                 raised = type(ex).__name__
             nops += 1
             # ---- reference model
-            if op == "W" or op == "E0":
+            if op in ("W", "E0", "P0"):
                 if exists and raised is None:
                     vio.append((f"mode|{op}-on-existing-file|no-exception", f"history {hist} pre_exists={pre_exists}: op {i} replaced or reopened an existing file without overwrite"))
                 if raised is None:
                     model["tag"] = tag
-            elif op in ("O", "E1"):
+            elif op in ("O", "E1", "P1"):
                 if raised is None:
                     model["tag"] = tag
             elif op == "X":
@@ -326,10 +337,7 @@ def mode_history(args):
         if os.path.exists(F):
             try:
                 with h5py.File(F, "r") as f:
-                    if f["mpo_tensors_data"].shape[0] > 0:
-                        obs = int(round(float(np.real(f["mpo_tensors_data"][0][0]))))
-                    else:
-                        obs = "empty"
+                    obs = int(f.attrs["name"])
             except Exception as ex:  # noqa
                 obs = "unreadable"
         else:
@@ -369,7 +377,7 @@ def run(tier, seed):
             rep.add(Violation(cls, what, dict(rp, part="crash")))
     depth = 3
     hs = [h for L in range(1, depth + 1) for h in itertools.product(OPS, repeat=L)
-          if h[0] not in ("C", "X")]
+          if h[0] not in ("C", "X") and sum(o in ("P0", "P1") for o in h) <= 2]
     jobs = [(h, pe) for h in hs for pe in (False, True)]
     res = pmap(mode_history, jobs, seed=seed)
     for (h, pe), r in zip(jobs, res):
@@ -386,7 +394,8 @@ def run(tier, seed):
         "rule": "crash points: every prefix (0..L) of the strace-recorded pwrite64/write/ftruncate sequence of the writer "
                 "(hard death), and every file-operation index plus 'before close' in two orderly death modes (unhandled "
                 "exception, sys.exit); each surviving file is imported as 'file' and as 'simple' in a separate process. "
-                "mode machine: all histories up to depth 3 over 8 operations x {target missing, existing}. distinct = "
+                "mode machine: all histories up to depth 3 over 10 operations (create write/overwrite/temp, read, close, remove, "
+                "export with overwrite F/T, pt_tempo_compute into the file with overwrite F/T) x {target missing, existing}. distinct = "
                 "distinct (writer, death mode, crash point) and (history, precondition) tuples",
         "samples": [{"writer": "export", "death": "hard", "prefix": 7}, {"writer": "pttempo", "death": "exception", "after_file_ops": 3},
                     {"mode_history": list(jobs[(seed * 31) % len(jobs)][0]), "pre_exists": jobs[(seed * 31) % len(jobs)][1]}],
